@@ -109,6 +109,7 @@ type Exec struct {
 	rtErrT      types.Type
 	syncMaps    map[*Value]*MapV
 	inMerge     int
+	obs         []obsRec
 	poolMode    int
 	oracleArg   map[string]Value
 	replacers   map[*Value][][2]*StrV
@@ -759,7 +760,7 @@ func (e *Exec) indexAddr(instr *ssa.IndexAddr, x Value, idx *Term) Value {
 	if sym == nil {
 		return Ptr{cell: &cells[i], obj: obj, idx: off + i}
 	}
-	if obj == nil || !scalarElem(et) || len(cells) > 512 {
+	if obj == nil || !scalarElem(et) || len(cells) > 1024 {
 		k := int(e.Concretize(idx, false, "symbolic index"))
 		return Ptr{cell: &cells[k], obj: obj, idx: off + k}
 	}
